@@ -227,17 +227,32 @@ type Builder struct {
 	// ReplaceHidden, if set, is called for every hidden sub-tree (after
 	// building it) and may return a substitute error to use instead.
 	ReplaceHidden func(parent *Node, idx int, built error) error
+	// MarkRefs records, for every layer built by errors.Mark, its reference.
+	MarkRefs map[error]error
+	// Built records the error built for every spec node.
+	Built map[*Node]error
 }
 
 // Build constructs the real error for a spec. It panics on a harness bug.
 func (b *Builder) Build(n *Node) error {
+	if b.MarkRefs == nil {
+		b.MarkRefs = map[error]error{}
+		b.Built = map[*Node]error{}
+	}
+	save := onMark
+	onMark = func(layer, ref error) { b.MarkRefs[layer] = ref }
+	defer func() { onMark = save }()
+	return b.build(n)
+}
+
+func (b *Builder) build(n *Node) error {
 	kids := make([]error, len(n.Kids))
 	for i, k := range n.Kids {
-		kids[i] = b.Build(k)
+		kids[i] = b.build(k)
 	}
 	hid := make([]error, len(n.Hid))
 	for i, h := range n.Hid {
-		hid[i] = b.Build(h)
+		hid[i] = b.build(h)
 		if b.ReplaceHidden != nil {
 			hid[i] = b.ReplaceHidden(n, i, hid[i])
 		}
@@ -246,5 +261,6 @@ func (b *Builder) Build(n *Node) error {
 	if e == nil {
 		panic(fmt.Sprintf("harness: constructor %s returned nil", kinds[n.K].Name))
 	}
+	b.Built[n] = e
 	return e
 }
